@@ -176,6 +176,20 @@ def check_program(name, slots, program, w, wd, sieve, stats, files):
                         bad('exact-label breakpoints next to unknown labels resolve wrongly', {'labels': sorted(sub), 'unknown': list(missing), 'addresses': sorted(exp)},
                             sorted(got) if isinstance(got, set) else got)
                         break
+        # substring sets in which one substring contains another: the union of the matches, nothing is dropped
+        for nm in picks:
+            long_ = nm[:max(2, len(nm) // 2 + 1)]
+            for short in {long_[:max(1, len(long_) // 2)], long_[-max(1, len(long_) // 2):], nm[-1:]}:
+                sub = {long_, short, nm}
+                try:
+                    got = set(get_breakpoint_handler(dbg, None, None, set(sub)).breakpoints)
+                except Exception as e:  # noqa
+                    got = f'{type(e).__name__}: {e}'
+                stats['breakpoint_queries'] += 1
+                exp = {a for n2, a in table.items() if any(x in n2 for x in sub)}
+                if got != exp:
+                    bad('nested substring breakpoints resolve wrongly', {'substrings': sorted(sub), 'addresses': sorted(exp)}, sorted(got) if isinstance(got, set) else got)
+                    break
         # combined sets (two substrings, an address, an unknown label)
         fr = fragments(table)[:3]
         if len(fr) >= 2:
